@@ -53,6 +53,61 @@ fn run_cc(offered: u32, devs: Vec<Deviation>) -> (String, Rc<RefCell<RawPeer>>) 
     }, peer)
 }
 
+/// well-formed but unusual server messages (structure-aware variants a byte-level fault cannot reach in one step):
+/// (description, name of the message it replaces, replacement kind)
+pub fn structured() -> Vec<(String, Deviation)> {
+    use vref::bytes::W;
+    let mut v = vec![];
+    // X.224 confirm: every negotiation type x result/failure code x flags, consistent length field
+    for ty in [1u8, 2, 3, 0, 4, 0xFF] {
+        for val in [0u32, 1, 2, 3, 4, 5, 6, 7, 8, 9, 0xFF, 0x100, 0xFFFF_FFFF] {
+            for flags in [0u8, 0x1F] {
+                v.push((format!("cc negotiation type {} value {:#x} flags {:#x}", ty, val, flags), Deviation { msg: "cc".into(), kind: DevKind::Replace(vref::framing::tpkt(&vref::framing::x224_cc(Some((ty, flags, 8, val))))) }));
+            }
+        }
+    }
+    v.push(("cc without negotiation data".into(), Deviation { msg: "cc".into(), kind: DevKind::Replace(vref::framing::tpkt(&vref::framing::x224_cc(None))) }));
+    // attach-user / channel-join confirms: every result code, echoed ids right or wrong
+    for result in 0..=15u8 {
+        v.push((format!("attach confirm result {}", result), Deviation { msg: "attach_confirm".into(), kind: DevKind::ReplaceInner(vref::mcs::attach_user_confirm(result, 1007)) }));
+        for (req, ch) in [(1007u16, 1007u16), (1003, 1003), (1003, 1004), (1007, 0)] {
+            for name in ["join_confirm", "join_confirm_2"] {
+                v.push((format!("{} result {} requested {} channel {}", name, result, req, ch), Deviation { msg: name.into(), kind: DevKind::ReplaceInner(vref::mcs::channel_join_confirm(result, 1007, req, ch)) }));
+            }
+        }
+    }
+    // licensing: every message type; error alerts with every code x state transition x blob length (all lengths consistent)
+    let lic = |sec_flags: u16, ty: u8, pflags: u8, body: &[u8]| {
+        let mut w = W::new();
+        w.u16le(sec_flags).u16le(0).u8(ty).u8(pflags).u16le((body.len() + 4) as u16).bytes(body);
+        w.done()
+    };
+    for code in [1u32, 2, 3, 4, 6, 7, 8, 9, 0xA, 0xB, 0, 0xFFFF_FFFF] {
+        for transition in [1u32, 2, 3, 4, 0] {
+            for blob_len in [0usize, 1, 2, 3, 4, 5, 16, 17, 255] {
+                let mut w = W::new();
+                w.u32le(code).u32le(transition).u16le(4).u16le(blob_len as u16).bytes(&(0..blob_len).map(|i| 0x41 + (i % 26) as u8).collect::<Vec<u8>>());
+                let body = w.done();
+                v.push((format!("licence error alert code {:#x} transition {} blob of {} bytes", code, transition, blob_len), Deviation { msg: "licence".into(), kind: DevKind::ReplaceInner(lic(0x0080, 0xFF, 0x03, &body)) }));
+            }
+        }
+    }
+    for ty in [0x01u8, 0x02, 0x03, 0x04, 0x12, 0x13, 0x15, 0x00, 0xFE] {
+        for body_len in [0usize, 1, 4, 40, 300] {
+            for sec_flags in [0x0080u16, 0x0280, 0x0000, 0x0008] {
+                v.push((format!("licence message type {:#x} body {} sec flags {:#x}", ty, body_len, sec_flags), Deviation { msg: "licence".into(), kind: DevKind::ReplaceInner(lic(sec_flags, ty, 0x83, &vec![0x11; body_len])) }));
+            }
+        }
+    }
+    // disconnect provider ultimatum (every reason) in place of each message after the connect response
+    for reason in 0..8u8 {
+        for name in ["attach_confirm", "join_confirm", "licence"] {
+            v.push((format!("disconnect ultimatum reason {} instead of {}", reason, name), Deviation { msg: name.into(), kind: DevKind::Replace(vref::framing::tpkt(&vref::framing::x224_dt(&vref::mcs::disconnect_provider_ultimatum(reason)))) }));
+        }
+    }
+    v
+}
+
 pub fn err_class(dbg: &str) -> String {
     // first two identifiers of the Debug text: e.g. RdpError(RdpError { kind: InvalidData -> "RdpError:InvalidData"
     if let Some(i) = dbg.find("kind: ") {
@@ -126,6 +181,11 @@ impl C05 {
                 let s = st.get(i % n);
                 (b.into(), 0, vec![Deviation { msg: self.inner_msgs[m].clone(), kind: DevKind::Replace(s) }], None)
             }
+            "structured" => {
+                let sv = structured();
+                let (_, d) = sv[(i / 2) as usize].clone();
+                (b.into(), (i % 2) as usize, vec![d], None)
+            }
             "direct" => {
                 let st = self.strs("direct");
                 let n = st.count();
@@ -174,6 +234,7 @@ impl Prop for C05 {
             ("inner", self.inner_msgs.len() as u64 * self.strs("inner").count()),
             ("frame", self.inner_msgs.len() as u64 * self.strs("frame").count()),
             ("direct", DIRECT.len() as u64 * self.strs("direct").count()),
+            ("structured", structured().len() as u64 * 2),
         ];
         if tier == Tier::Thorough {
             let n = self.conn_space[0].reduced_count();
@@ -190,7 +251,7 @@ impl Prop for C05 {
         json!({"idx": idx, "block": b, "config": cfg, "deviations": devs, "direct_input_hex": direct.map(|d| vref::bytes::hex(&d))})
     }
     fn rule(&self) -> String {
-        "cases = an honest setup conversation with <=1 deviation (<=2 in thorough). [cc] x224::Client::connect for offered masks {3,1}: the connection confirm with every byte offset x value set (12 boundary values + honest+-1 in quick, all 256 in thorough), every offset as 16/32-bit field in both byte orders x boundary set, every truncation, extensions {+1,+2,+1500}; [conn] the same over connect-response, attach-confirm, both join-confirms and the licence PDU for two server configurations, executed through the real mcs::Client::connect + sec::connect; [inner] each message's payload replaced by every byte string of length <=2 and every string of length 3..5 (..6 in thorough) over {00,01,02,03,04,7F,80,FF}; [frame] each whole message replaced by every string of length <=2 (<=3 in thorough) plus the alphabet strings, unframed (the TPKT / fast-path frame reader is the entry); [direct] the same strings fed to gcc::read_conference_create_response, license::client_connect and the per::read_* primitives; [pairs, thorough] all pairs of {byte:=00, byte:=FF, truncate} over all offsets of all five messages. Non-trivial: the deviation changed bytes the client consumed (the outcome differs from the honest one or the mutated message was reached).".into()
+        "cases = an honest setup conversation with <=1 deviation (<=2 in thorough). [cc] x224::Client::connect for offered masks {3,1}: the connection confirm with every byte offset x value set (12 boundary values + honest+-1 in quick, all 256 in thorough), every offset as 16/32-bit field in both byte orders x boundary set, every truncation, extensions {+1,+2,+1500}; [conn] the same over connect-response, attach-confirm, both join-confirms and the licence PDU for two server configurations, executed through the real mcs::Client::connect + sec::connect; [inner] each message's payload replaced by every byte string of length <=2 and every string of length 3..5 (..6 in thorough) over {00,01,02,03,04,7F,80,FF}; [frame] each whole message replaced by every string of length <=2 (<=3 in thorough) plus the alphabet strings, unframed (the TPKT / fast-path frame reader is the entry); [direct] the same strings fed to gcc::read_conference_create_response, license::client_connect and the per::read_* primitives; [structured] well-formed but unusual messages: the X.224 confirm with every negotiation type x result / failure code 0..9, 0xFF, 0x100, 2^32-1 x flags; attach and join confirms with every result code 0..15 and right / wrong echoed ids; licensing error alerts over 12 codes x 5 state transitions x 9 blob lengths with consistent length fields, every licensing message type x body length x security-header flags; a disconnect ultimatum with every reason in place of each later message; each for both offered masks / server configurations; [pairs, thorough] all pairs of {byte:=00, byte:=FF, truncate} over all offsets of all five messages. Non-trivial: the deviation changed bytes the client consumed (the outcome differs from the honest one or the mutated message was reached).".into()
     }
     fn assumptions(&self) -> Vec<String> {
         vec![
@@ -221,6 +282,11 @@ impl Prop for C05 {
             return Outcome::pass(format!("{}:{}", block, if r.is_ok() { "ok".to_string() } else { err_class(&r.unwrap_err()) }), !s.is_empty());
         }
         match block.as_str() {
+            "structured" if devs[0].msg == "cc" => {
+                let (r, peer) = run_cc(OFFERED[cfg], devs.clone());
+                let applied = peer.borrow().srv.dev_applied.iter().any(|a| *a);
+                Outcome::pass(format!("structured-cc:{}", r), applied)
+            }
             "cc" => {
                 let (r, peer) = run_cc(OFFERED[cfg], devs.clone());
                 let applied = peer.borrow().srv.dev_applied.iter().any(|a| *a);
